@@ -49,6 +49,14 @@ VARIANT_TYPES = [
 ]
 
 
+def _parse_timestamp(value):
+    # an integer is read exactly (a float cannot represent every integer above 2**53)
+    try:
+        return int(value)
+    except ValueError:
+        return int(float(value))
+
+
 def compute_checksum(path, checksum_type):
     checksum = hashlib.new(checksum_type)
     with open(path, "rb") as fo:
@@ -353,7 +361,7 @@ class Tree(productmd.common.MetadataBase):
             self.platforms.add(i)
 
         if parser.has_option("general", "timestamp"):
-            self.build_timestamp = int(parser.getfloat("general", "timestamp"))
+            self.build_timestamp = _parse_timestamp(parser.get("general", "timestamp"))
         else:
             self.build_timestamp = -1
 
@@ -363,7 +371,7 @@ class Tree(productmd.common.MetadataBase):
         self.arch = parser.get(section, "arch")
         self.platforms = set([i for i in parser.get(section, "platforms").split(",") if i])
         if section == self._section:
-            self.build_timestamp = int(parser.getfloat(self._section, "build_timestamp"))
+            self.build_timestamp = _parse_timestamp(parser.get(self._section, "build_timestamp"))
         else:
             self.build_timestamp = -1
 
